@@ -543,12 +543,14 @@ type newGameCase struct {
 	Opts   []uStep  `json:"options"` // applied to both engines before anything else
 }
 
-var infoLine = regexp.MustCompile(`^info depth (\d+) seldepth \d+ multipv 1 score (.+?) nodes \d+ nps \d+ time \d+ pv (.*)$`)
+// the node count is part of the compared stream: a fixed-depth search is deterministic, so an engine in the
+// state of a fresh one visits exactly the same number of nodes (nps and time are wall-clock values)
+var infoLine = regexp.MustCompile(`^info depth (\d+) seldepth \d+ multipv 1 score (.+?) nodes (\d+) nps \d+ time \d+ pv (.*)$`)
 
 func searchStream(u *hx.UciSession, from int) (stream []string, best string) {
 	for _, l := range u.Lines()[from:] {
 		if m := infoLine.FindStringSubmatch(l.Text); m != nil {
-			stream = append(stream, fmt.Sprintf("depth %s score %s pv %s", m[1], m[2], strings.TrimSpace(m[3])))
+			stream = append(stream, fmt.Sprintf("depth %s score %s nodes %s pv %s", m[1], m[2], m[3], strings.TrimSpace(m[4])))
 		}
 		if strings.HasPrefix(l.Text, "bestmove") {
 			best = l.Text
